@@ -22,6 +22,9 @@ def check(repo: Repo, rep, tier):
     from .C01 import repr_parse
 
     repr_parse(repo, rep)
+    from .C16 import no_nondet
+
+    no_nondet(repo, rep)
     from .C03 import io_encoding
 
     io_encoding(repo, rep)
